@@ -2,7 +2,9 @@
 //! crate (feature `verif-hooks`) and writes traces in the format of /verif/PROTOCOL.md.
 
 mod bq;
+mod crash;
 mod exec;
+mod faults;
 mod gen;
 mod ids;
 mod kernels;
@@ -84,6 +86,11 @@ struct Args {
     random: Option<usize>,
     max_schedules: Option<usize>,
     max_snapshots: Option<usize>,
+    max_polls: Option<usize>,
+    op_points: Option<usize>,
+    commit_points: Option<usize>,
+    part: Option<String>,
+    builds: Option<usize>,
 }
 
 fn parse_args() -> Result<Args, String> {
@@ -123,6 +130,11 @@ fn parse_args() -> Result<Args, String> {
             "--per-dim" => args.per_dim = Some(value(&mut it, "--per-dim")?),
             "--random" => args.random = Some(value(&mut it, "--random")?),
             "--max-snapshots" => args.max_snapshots = Some(value(&mut it, "--max-snapshots")?),
+            "--max-polls" => args.max_polls = Some(value(&mut it, "--max-polls")?),
+            "--op-points" => args.op_points = Some(value(&mut it, "--op-points")?),
+            "--commit-points" => args.commit_points = Some(value(&mut it, "--commit-points")?),
+            "--part" => args.part = Some(value(&mut it, "--part")?),
+            "--builds" => args.builds = Some(value(&mut it, "--builds")?),
             "--max-schedules" => args.max_schedules = Some(value(&mut it, "--max-schedules")?),
             flag if flag.starts_with("--") => return Err(format!("unknown option {flag}")),
             _ if args.scenario.is_empty() => args.scenario = a,
@@ -290,6 +302,51 @@ fn real_main() -> Result<(), String> {
                     range.len(),
                     started.elapsed().as_secs_f64()
                 );
+            }
+            Ok(())
+        }
+        "crash-child" => crash::child_main(&args.positional),
+        "crash" => {
+            let mut out = open_out(&args.out)?;
+            let opts = crash::CrashOpts {
+                profile: args.profile.clone().unwrap_or_else(|| "c09".to_string()),
+                tier,
+                seed,
+                cases: args.cases.unwrap_or(if quick { 4 } else { 40 }),
+                first_case: args.first_case,
+                max_polls: args.max_polls.unwrap_or(if quick { 40 } else { 400 }),
+                op_points: args.op_points.unwrap_or(if quick { 8 } else { 30 }),
+                commit_points: args.commit_points.unwrap_or(if quick { 8 } else { 30 }),
+            };
+            let _ = writeln!(out, "# harness crash --profile {} --seed {seed} --cases {}", opts.profile, opts.cases);
+            let stats = crash::run(&opts, &mut *out)?;
+            out.flush().map_err(|e| e.to_string())?;
+            if !args.quiet {
+                eprintln!(
+                    "crash: {} histories, {} children ({} killed at their point, {} had finished), {:.1}s",
+                    stats.histories,
+                    stats.children,
+                    stats.killed_at_point,
+                    stats.finished_first,
+                    started.elapsed().as_secs_f64()
+                );
+            }
+            Ok(())
+        }
+        "faults" => {
+            let mut out = open_out(&args.out)?;
+            let opts = faults::FaultOpts {
+                part: args.part.clone().unwrap_or_else(|| "all".to_string()),
+                tier,
+                seed,
+                cases: args.cases,
+                builds: args.builds,
+            };
+            let _ = writeln!(out, "# harness faults --part {} --seed {seed}", opts.part);
+            let cases = faults::run(&opts, &mut *out)?;
+            out.flush().map_err(|e| e.to_string())?;
+            if !args.quiet {
+                eprintln!("faults {}: {cases} cases, {:.1}s", opts.part, started.elapsed().as_secs_f64());
             }
             Ok(())
         }
